@@ -38,27 +38,29 @@ Proof.
   - simpl. destruct e; [|reflexivity]. rewrite (IH H). reflexivity.
 Qed.
 
-(* an accepted configuration: the policy in force is, list by list and in order, exactly what was written *)
-Lemma parse_lists_exact : forall l p, parse_lists l = Some p <->
-  l_block l = map NOk (e_block p) /\ l_allow l = map NOk (e_allow p) /\
+(* an accepted configuration: the policy in force is, list by list and in order, exactly what was written
+   (plus, behind the written blocklist, the interface subnets when covert_blocklist_public_addrs is on) *)
+Lemma parse_lists_exact : forall ifaces l p, parse_lists ifaces l = Some p <->
+  (exists b, l_block l = map NOk b /\ e_block p = b ++ implicit_block ifaces l) /\ l_allow l = map NOk (e_allow p) /\
   l_phantom l = map NOk (e_phantom p) /\ l_domains l = map POk (e_domains p).
 Proof.
-  intros l p. unfold parse_lists. split.
+  intros ifaces l p. unfold parse_lists. split.
   - destruct (parse_nets (l_block l)) as [b|] eqn:Eb; [|discriminate].
     destruct (parse_pats (l_domains l)) as [d|] eqn:Ed; [|discriminate].
     destruct (parse_nets (l_phantom l)) as [ph|] eqn:Eph; [|discriminate].
     destruct (parse_nets (l_allow l)) as [a|] eqn:Ea; [|discriminate].
     intro H. inversion H; subst; simpl.
     repeat split; auto using parse_nets_inv, parse_pats_inv.
-  - intros (Hb & Ha & Hph & Hd). rewrite Hb, Ha, Hph, Hd.
-    rewrite !parse_nets_map, parse_pats_map. destruct p; reflexivity.
+    exists b. split; [apply parse_nets_inv; exact Eb|reflexivity].
+  - intros ((b & Hb & Hb') & Ha & Hph & Hd). rewrite Hb, Ha, Hph, Hd.
+    rewrite !parse_nets_map, parse_pats_map. destruct p; simpl in *. subst. reflexivity.
 Qed.
 
-Lemma bad_entry_fails : forall l,
+Lemma bad_entry_fails : forall ifaces l,
   In NBad (l_block l) \/ In NBad (l_allow l) \/ In NBad (l_phantom l) \/ In PBad (l_domains l) ->
-  parse_lists l = None.
+  load ifaces (ELists l) = None.
 Proof.
-  intros l H. unfold parse_lists.
+  intros ifaces l H. unfold load, parse_lists.
   destruct H as [H|[H|[H|H]]].
   - rewrite (parse_nets_bad _ H). reflexivity.
   - rewrite (parse_nets_bad _ H). destruct (parse_nets (l_block l)), (parse_pats (l_domains l)), (parse_nets (l_phantom l)); reflexivity.
@@ -71,16 +73,25 @@ Proof. intros n l H. apply in_map_iff in H. destruct H as (x & E & I). inversion
 Lemma in_map_POk : forall n l, In (POk n) (map POk l) -> In n l.
 Proof. intros n l H. apply in_map_iff in H. destruct H as (x & E & I). inversion E; subst; exact I. Qed.
 
-Lemma written_in_force : forall l p, parse_lists l = Some p ->
-  (forall n, In (NOk n) (l_block l) <-> In n (e_block p)) /\
+Lemma written_in_force : forall ifaces l p, parse_lists ifaces l = Some p ->
+  (forall n, In n (e_block p) <-> In (NOk n) (l_block l) \/ (l_public l = true /\ In n ifaces)) /\
   (forall n, In (NOk n) (l_allow l) <-> In n (e_allow p)) /\
   (forall n, In (NOk n) (l_phantom l) <-> In n (e_phantom p)) /\
   (forall q, In (POk q) (l_domains l) <-> In q (e_domains p)).
 Proof.
-  intros l p H. apply parse_lists_exact in H. destruct H as (Hb & Ha & Hph & Hd).
-  rewrite Hb, Ha, Hph, Hd.
+  intros ifaces l p H. apply parse_lists_exact in H. destruct H as ((b & Hb & Hb') & Ha & Hph & Hd).
+  rewrite Hb, Hb', Ha, Hph, Hd.
   repeat split; intros; auto using in_map_NOk, in_map_POk, in_map.
+  - apply in_app_or in H. destruct H as [H|H]; [left; apply in_map; exact H|right].
+    unfold implicit_block in H. destruct (l_public l); [split; [reflexivity|exact H]|destruct H].
+  - apply in_or_app. destruct H as [H|[P H]]; [left; apply in_map_NOk; exact H|right].
+    unfold implicit_block. rewrite P. exact H.
 Qed.
+
+Lemma load_exact : forall ifaces l p, load ifaces (ELists l) = Some p <->
+  (exists b, l_block l = map NOk b /\ e_block p = b ++ implicit_block ifaces l) /\ l_allow l = map NOk (e_allow p) /\
+  l_phantom l = map NOk (e_phantom p) /\ l_domains l = map POk (e_domains p).
+Proof. intros. apply parse_lists_exact. Qed.
 
 (* ---------------- decisions ---------------- *)
 Lemma existsb_false_iff : forall {A} (f : A -> bool) l, existsb f l = false <-> forall x, In x l -> f x = false.
@@ -197,26 +208,31 @@ Section DecideLemmas.
 End DecideLemmas.
 
 (* ---------------- reload ---------------- *)
-Lemma reload_failed_same : forall cur f, load f = None -> reload_pol cur f = cur.
-Proof. intros cur f H. unfold reload_pol. rewrite H. reflexivity. Qed.
-Lemma reload_ok_new : forall cur f p, load f = Some p -> reload_pol cur f = p.
-Proof. intros cur f p H. unfold reload_pol. rewrite H. reflexivity. Qed.
+Lemma reload_failed_same : forall ifaces cur f, load ifaces f = None -> reload_pol ifaces cur f = cur.
+Proof. intros ifaces cur f H. unfold reload_pol. rewrite H. reflexivity. Qed.
+Lemma reload_ok_new : forall ifaces cur f p, load ifaces f = Some p -> reload_pol ifaces cur f = p.
+Proof. intros ifaces cur f p H. unfold reload_pol. rewrite H. reflexivity. Qed.
 
 (* after any sequence of reloads the policy in force is the last one that loaded, or the initial one *)
-Fixpoint last_loaded (cur : epolicy) (l : list efile) : epolicy :=
-  match l with [] => cur | f :: r => last_loaded (match load f with Some p => p | None => cur end) r end.
-Lemma reloads_last_loaded : forall l cur, reloads_pol cur l = last_loaded cur l.
-Proof. induction l as [|f r IH]; intro cur; simpl; [reflexivity|]. unfold reloads_pol in *. simpl. rewrite IH. reflexivity. Qed.
-
-Lemma reloads_in_force : forall l cur, reloads_pol cur l = cur \/ exists f, In f l /\ load f = Some (reloads_pol cur l).
+Lemma reloads_in_force : forall ifaces l cur,
+  reloads_pol ifaces cur l = cur \/ exists f, In f l /\ load ifaces f = Some (reloads_pol ifaces cur l).
 Proof.
-  induction l as [|f r IH]; intro cur; [left; reflexivity|].
-  unfold reloads_pol. simpl. fold (reloads_pol (reload_pol cur f) r).
-  destruct (IH (reload_pol cur f)) as [E|(g & I & L)].
-  - rewrite E. unfold reload_pol. destruct (load f) as [p|] eqn:Lf.
+  intros ifaces. induction l as [|f r IH]; intro cur; [left; reflexivity|].
+  unfold reloads_pol. simpl. fold (reloads_pol ifaces (reload_pol ifaces cur f) r).
+  destruct (IH (reload_pol ifaces cur f)) as [E|(g & I & L)].
+  - rewrite E. unfold reload_pol. destruct (load ifaces f) as [p|] eqn:Lf.
     + right. exists f. split; [left; reflexivity|exact Lf].
     + left. reflexivity.
   - right. exists g. split; [right; exact I|exact L].
+Qed.
+
+Lemma reload_keeps_enforcing : forall ifaces cur files,
+  (reloads_pol ifaces cur files = cur \/ exists f, In f files /\ load ifaces f = Some (reloads_pol ifaces cur files)) /\
+  (forall f, load ifaces f = None -> reload_pol ifaces cur f = cur) /\
+  (forall f p, load ifaces f = Some p -> reload_pol ifaces cur f = p).
+Proof.
+  intros ifaces cur files. split; [exact (reloads_in_force ifaces files cur)|].
+  split; [exact (reload_failed_same ifaces cur)|exact (reload_ok_new ifaces cur)].
 Qed.
 
 (* ---------------- subnets against the spellings of an address ---------------- *)
@@ -241,3 +257,58 @@ Qed.
 
 Lemma addr_blocked_mapped : forall p a, len_is 4 a = true -> addr_blocked p (v4in6_prefix ++ a) = addr_blocked p a.
 Proof. intros p a H. unfold addr_blocked. rewrite !(in_nets_mapped _ a H). reflexivity. Qed.
+
+Lemma mapped_spelling_same : forall p a, len_is 4 a = true ->
+  addr_blocked p (v4in6_prefix ++ a) = addr_blocked p a /\
+  phantom_blocked p (v4in6_prefix ++ a) = phantom_blocked p a.
+Proof. intros p a H. split; [exact (addr_blocked_mapped p a H)|exact (in_nets_mapped (e_phantom p) a H)]. Qed.
+
+(* ---------------- the property-level statements (accepted configuration => enforcement) ---------------- *)
+Lemma pattern_entry_enforced : forall parse_ip resolve ifaces l p pat s host port,
+  load ifaces (ELists l) = Some p -> In (POk pat) (l_domains l) ->
+  split_host_port s = Some (host, port) -> pat_match pat host = true ->
+  decide parse_ip resolve p s = false.
+Proof.
+  intros parse_ip resolve ifaces l p pat s host port L I S M.
+  apply (pattern_refuses parse_ip resolve p s host port pat S); [|exact M].
+  apply (written_in_force ifaces l p L). exact I.
+Qed.
+
+Lemma pattern_entry_enforced_allowlisted_literal : forall parse_ip resolve ifaces l p pat n s host port ip,
+  load ifaces (ELists l) = Some p -> In (POk pat) (l_domains l) -> In (NOk n) (l_allow l) ->
+  split_host_port s = Some (host, port) -> parse_ip host = true -> resolve host = RAddr ip false ->
+  contains n ip = true -> pat_match pat host = true ->
+  decide parse_ip resolve p s = false.
+Proof.
+  intros parse_ip resolve ifaces l p pat n s host port ip L I _ S _ _ _ M.
+  exact (pattern_entry_enforced parse_ip resolve ifaces l p pat s host port L I S M).
+Qed.
+
+Lemma subnet_entries_enforced : forall parse_ip resolve ifaces l p s host port ip z,
+  load ifaces (ELists l) = Some p -> split_host_port s = Some (host, port) -> resolve host = RAddr ip z ->
+  (l_allow l = [] -> forall n, In (NOk n) (l_block l) \/ (l_public l = true /\ In n ifaces) -> contains n ip = true ->
+     decide parse_ip resolve p s = false) /\
+  (l_allow l <> [] -> (forall n, In (NOk n) (l_allow l) -> contains n ip = false) -> decide parse_ip resolve p s = false).
+Proof.
+  intros parse_ip resolve ifaces l p s host port ip z L S R.
+  pose proof (written_in_force ifaces l p L) as (Wb & Wa & _ & _).
+  pose proof (proj1 (load_exact ifaces l p) L) as (_ & Ea & _ & _).
+  split.
+  - intros A n I C. apply (subnet_refuses parse_ip resolve p s host port ip z S R).
+    apply addr_blocked_iff. right. split.
+    + rewrite A in Ea. destruct (e_allow p); [reflexivity|discriminate].
+    + exists n. split; [apply Wb; exact I|exact C].
+  - intros A H. apply (subnet_refuses parse_ip resolve p s host port ip z S R).
+    apply addr_blocked_iff. left. split.
+    + intro E. apply A. rewrite Ea, E. reflexivity.
+    + intros n I. apply H. apply Wa. exact I.
+Qed.
+
+Lemma phantom_entries_enforced : forall ifaces l p ip, load ifaces (ELists l) = Some p ->
+  (phantom_blocked p ip = true <-> exists n, In (NOk n) (l_phantom l) /\ contains n ip = true).
+Proof.
+  intros ifaces l p ip L. pose proof (written_in_force ifaces l p L) as (_ & _ & Wp & _).
+  unfold phantom_blocked, in_nets. rewrite existsb_exists. split.
+  - intros (n & I & C). exists n. split; [apply Wp; exact I|exact C].
+  - intros (n & I & C). exists n. split; [apply Wp; exact I|exact C].
+Qed.
